@@ -92,7 +92,15 @@ def poisson_patch(ctx, rng, kind, ename, deg, perdir):
     descr = {"mesh": meshes.mesh_descr(m), "info": info, "element": ename, "u": repr(u), "c": c,
              "problem": "poisson" if c == 0 else "reaction-diffusion"}
     order = 2 * e.maxdeg + (dim if general else 0)
-    basis = Basis(m, e, intorder=order)
+    if rng.random() < 0.3 and m.nelements >= 2:
+        # the whole mesh named as a list of ALL cells in another order (e.g. concatenated subdomains)
+        perm = list(range(m.nelements))
+        rng.shuffle(perm)
+        basis = Basis(m, e, intorder=order, elements=np.array(perm, dtype=np.int64))
+        descr["cells_listed"] = perm
+        ctx.count("patch:all-cells-listed-in-another-order")
+    else:
+        basis = Basis(m, e, intorder=order)
     A = laplace.assemble(basis) + c * mass.assemble(basis)
     b = LinearForm(lambda v, w: ff(w.x) * v).assemble(basis)
     b0 = b
@@ -301,6 +309,42 @@ def projection_identity(ctx, rng):
     return False
 
 
+def coarsest_full_dirichlet(ctx):
+    """every DOF on the boundary (one cell / the library's coarsest meshes, degree-one elements, Dirichlet data on
+    the whole boundary): the condensed system is EMPTY and the answer is the prescribed data; also through enforce"""
+    import skfem
+    from skfem import Basis, solve, condense, enforce
+    from skfem.models.poisson import laplace
+    cases = [(skfem.MeshLine1(), skfem.ElementLineP1), (skfem.MeshTri1(), skfem.ElementTriP1),
+             (skfem.MeshQuad1(), skfem.ElementQuad1), (skfem.MeshTet1(), skfem.ElementTetP1),
+             (skfem.MeshHex1(), skfem.ElementHex1), (skfem.MeshTri1.init_refdom(), skfem.ElementTriP1),
+             (skfem.MeshQuad1.init_refdom(), skfem.ElementQuad1), (skfem.MeshTri1(), skfem.ElementTriP2)]
+    for m, E_ in cases:
+        basis = Basis(m, E_())
+        D = basis.get_dofs().all()
+        A = laplace.assemble(basis)
+        xs = 1.0 + basis.doflocs[0] * 2.0 - (basis.doflocs[-1] if basis.doflocs.shape[0] > 1 else 0.0) * 3.0
+        b = np.zeros(basis.N)
+        ctx.case({"coarsest": type(m).__name__, "element": E_.__name__, "interior_dofs": int(basis.N - len(D))},
+                 nontrivial=True)
+        ctx.count("patch:coarsest-mesh-full-dirichlet")
+        for how in ("condense", "enforce"):
+            try:
+                sol = solve(*(condense(A, b, x=xs, D=D) if how == "condense" else enforce(A, b, x=xs, D=D)))
+                err = float(np.abs(sol - xs).max())
+            except Exception as ex:
+                ctx.violation("solving with every DOF (or all but a few) prescribed raised " + exc_kind(ex),
+                              {"mesh": type(m).__name__ + "()", "element": E_.__name__, "constrained_by": how,
+                               "err": repr(ex)}, {"what": "raise"})
+                continue
+            if err > 1e-10:
+                ctx.violation("patch test (linear solution, Dirichlet data on the whole boundary of a coarsest mesh): "
+                              "the prescribed values are not returned",
+                              {"mesh": type(m).__name__ + "()", "element": E_.__name__, "constrained_by": how,
+                               "error": err, "x": xs.tolist()},
+                              {"what": "patch", "element": E_.__name__, "problem": "poisson"})
+
+
 def run(ctx):
     ctx.rule = ("(a) patch tests: Poisson / reaction-diffusion with polynomial exact solution of the element's degree, "
                 "polynomial-complete elements (P1-P4, Q1, Q2, S2 on segments, triangles, tetrahedra, parallelogram/box "
@@ -318,6 +362,10 @@ def run(ctx):
     if not getattr(ctx, "no_lean", False):
         ctx.prove(["SkfemVerif.Props.C06"], ["SkfemVerif/Props/C06.lean"])
     rng = ctx.rng
+    try:
+        coarsest_full_dirichlet(ctx)
+    except Exception as ex:
+        ctx.violation("coarsest-mesh patch tests raised " + exc_kind(ex), {"err": repr(ex)}, {"what": "raise"})
     n = ctx.scale(500, 4000)
     for it in range(n):
         if ctx.time_left(0.92) < 0:
